@@ -16,11 +16,13 @@ var (
 	tagRed  = vtt.Tag{Name: "c", Classes: []string{"red"}}
 	tagAB   = vtt.Tag{Name: "c", Classes: []string{"a", "b"}}
 	tagLang = vtt.Tag{Name: "lang", Annotation: "en"}
+	tagHy   = vtt.Tag{Name: "c", Classes: []string{"bg-blue", "loud2", "\u00e9t\u00e9"}} // class names are not \w+ only
+	tagLang2 = vtt.Tag{Name: "lang", Annotation: "en-GB x"}
 
-	allTags   = []vtt.Tag{tagB, tagI, tagU, tagRed, tagAB, tagLang}
+	allTags   = []vtt.Tag{tagB, tagI, tagU, tagRed, tagAB, tagLang, tagHy, tagLang2}
 	allTexts  = []string{"x", "a b", " lead", "trail ", "7", "&", "<", "a<b", "&amp;", "a\u00a0b", "\u00e9", "e\u0301", "\U0001F600", "a>b", "a\tb", "\"q\"", "1 > 0 -> ok"}
 	allStarts = []int64{1000, 0, 1, 999, 1500, 59999, 60000, 3599999, 3600000, 35999999, 36000000, 86399999, 359998000}
-	tsmaps    = []*vtt.TSMap{nil, {Local: 0, MpegTS: 900000}, {Local: 1000, MpegTS: 180000}, {Local: 3600000, MpegTS: 8589934591}, {Local: 2000, MpegTS: 0}}
+	tsmaps    = []*vtt.TSMap{nil, {Local: 0, MpegTS: 900000}, {Local: 1000, MpegTS: 180000}, {Local: 3600000, MpegTS: 8589934591}, {Local: 2000, MpegTS: 0}, {Local: 0, MpegTS: 0}, {Local: 10000, MpegTS: 900000}} // the last two: a map that is set but shifts nothing
 	styleBlks = [][]string{{"::cue { color: red }"}, {"::cue(b) {", "  color: peachpuff;", "}"}}
 )
 
@@ -54,7 +56,7 @@ func fullProfile(thorough bool) profile {
 	p := profile{
 		ncues: []int{1, 0, 2}, starts: allStarts, ends: []int{0, 1, 2, 3}, ids: []int{0, 1, 2}, comments: []int{0, 1, 2},
 		settings: 2, nregions: []int{0, 1, 2}, regAttrs: true, regionRef: true, nstyles: []int{0, 1, 2}, styleKind: []int{0, 1},
-		tsmaps: []int{0, 1, 2, 3, 4}, nlines: []int{1, 2, 0}, voices: []string{"", "Bob", "Bob Smith"}, nruns: []int{1, 2},
+		tsmaps: []int{0, 1, 2, 3, 4, 5, 6}, nlines: []int{1, 2, 0}, voices: []string{"", "Bob", "Bob Smith"}, nruns: []int{1, 2},
 		tags: allTags, depth: 3, walk: true, ts: []int{0, 1, 2}, texts: allTexts, rend: "*",
 	}
 	if thorough {
@@ -147,7 +149,7 @@ func coreC2() profile {
 	p.regionRef = true
 	p.nstyles = []int{0, 1, 2}
 	p.styleKind = []int{0, 1}
-	p.tsmaps = []int{0, 1, 3}
+	p.tsmaps = []int{0, 1, 3, 5, 6}
 	p.rend = "eol bom headertext blank maprev"
 	return p
 }
